@@ -2,7 +2,7 @@ INIT Init
 NEXT Next
 CONSTANTS
   Part = "algebra"
-  L = 8
+  L = 6
   Cut = 8
 INVARIANT LawOutDomain
 INVARIANT LawSame
